@@ -431,3 +431,68 @@ Definition S_reload_same_state : Prop :=
       join (empty_log (lid l)) (log_of_entries (lid l) (lents l)) (-1) acc = Ok l' /\
       log_ok U l' /\ same_set (lents l') (lents l) /\
       values l' = values l /\ heads_sorted l' = heads_sorted l.
+
+(** * Replicator and merge (C10, C11, and the replication core of C02) *)
+From Orbit Require Export Model.Replicator.
+
+(** [h'] is in the ancestry of [h]: reachable through links of entries that exist *)
+Inductive ureach (U : list uent) : N -> N -> Prop :=
+| ureach_refl h : ureach U h h
+| ureach_step h e h' h'' : ufind h U = Some e -> In h' (u_links e) -> ureach U h' h'' -> ureach U h h''.
+
+Definition uvalid (U : list uent) (h : N) : Prop := exists e, ufind h U = Some e /\ u_valid e = true.
+
+Definition no_failed (s : rst) : Prop := forall h st, In (h, st) (r_tasks s) -> st <> TFailed.
+
+(** no label of the machine is enabled: nothing will ever move again without a new request *)
+Definition rstuck (m : rmech) (U : list uent) (s : rst) : Prop :=
+  (forall i, rstep m U s (RSlot i) = None) /\ (forall i ok, rstep m U s (RFetched i ok) = None) /\
+  rstep m U s RMerge = None.
+
+(** With the three repairs: for EVERY schedule (any interleaving of requests, slot
+    acquisitions, fetch completions in any order, fetch failures, cancellations at any
+    point, merges), whenever the machine is at rest with no fetch left failed, every
+    valid entry in the ancestry of every head ever requested is in the log —
+    whatever invalid (rejected) entries were mixed in, wherever requests were cancelled. *)
+Definition S_repl_complete : Prop :=
+  forall U slots sched s,
+    (1 <= slots)%nat ->
+    s = rrun rmech_fixed U sched (rinit slots []) ->
+    rquiet s -> no_failed s ->
+    forall c heads head h,
+      In (RLoad c heads) sched -> In head heads -> ureach U head h -> uvalid U h ->
+      In h (r_log s).
+
+(** with detached contexts a cancellation changes nothing but the record of it *)
+Definition drop_cancel (s : rst) : rst :=
+  mkRS (r_tasks s) (r_queue s) (r_workers s) (r_slots s) (r_buffer s) (r_pending s) [] (r_log s).
+Definition S_repl_cancel_harmless : Prop :=
+  forall U slots sched,
+    drop_cancel (rrun rmech_fixed U sched (rinit slots [])) =
+    drop_cancel (rrun rmech_fixed U (filter (fun l => match l with RCancel _ => false | _ => true end) sched) (rinit slots [])).
+
+(** a failed fetch is retried by the next request, whatever that request asks for *)
+Definition S_repl_retry : Prop :=
+  forall U s c heads h,
+    tget h (r_tasks s) = Some TFailed -> ~ In h (r_log s) ->
+    exists s', rstep rmech_fixed U s (RLoad c heads) = Some s' /\ tget h (r_tasks s') = Some TAdded /\
+               In h (r_queue s').
+
+(** progress: while a worker or an unmerged batch exists and a slot discipline holds, some label is enabled *)
+Definition S_repl_progress : Prop :=
+  forall U slots sched s,
+    (1 <= slots)%nat -> s = rrun rmech_fixed U sched (rinit slots []) ->
+    ~ rquiet s -> ~ rstuck rmech_fixed U s.
+
+(** the pinned commit: each missing mechanism gives a wedged state in which a valid,
+    requested, re-requested entry never reaches the log *)
+Definition wedge_witness (m : rmech) : Prop :=
+  exists U slots sched h,
+    (1 <= slots)%nat /\
+    let s := rrun m U sched (rinit slots []) in
+    rstuck m U s /\ uvalid U h /\ ~ In h (r_log s) /\
+    (exists c heads, last sched (RCancel 0) = RLoad c heads /\ In h heads /\ ~ In c (r_cancel s)).
+
+Definition S_repl_refuted_cancel : Prop := wedge_witness (mkRM false true true).
+Definition S_repl_refuted_fetch_failure : Prop := wedge_witness (mkRM true false true).
+Definition S_repl_refuted_merge_abort : Prop := wedge_witness (mkRM true true false).
